@@ -499,6 +499,7 @@ static void iauth_xquery_check_password(struct iauth_request *req,
         case 'x': MODE(IAUTH_XQUERY_HIDDEN_HOST); break;
         case '!': MODE(IAUTH_XQUERY_HIDDEN_ONLY); break;
 #undef MODE
+        default: return; /* not a <mode>: an ordinary password */
         }
     }
 
